@@ -81,10 +81,44 @@ func (fs *FileSystem) Store(bom *sbom.Document, opts *StoreOptions) error {
 		return fmt.Errorf("there is already an entry for the specified document (and NoClobber = true)")
 	}
 
-	if err := os.WriteFile(filepath.Join(fs.Options.Path, filename), out, os.FileMode(0o644)); err != nil {
+	if err := writeFileAtomic(fs.Options.Path, filename, out); err != nil {
 		return fmt.Errorf("writing data to disk: %w", err)
 	}
 
+	return nil
+}
+
+// writeFileAtomic writes data to a temporary file in dir and renames it to
+// name, so that a reader (or a crash at any point) sees either the previous
+// complete entry or the new complete entry, never a partial one.
+func writeFileAtomic(dir, name string, data []byte) error {
+	tmp, err := os.CreateTemp(dir, name+".tmp-*")
+	if err != nil {
+		return err
+	}
+	tmpName := tmp.Name()
+	cleanup := func(err error) error {
+		tmp.Close()
+		os.Remove(tmpName)
+		return err
+	}
+	if _, err := tmp.Write(data); err != nil {
+		return cleanup(err)
+	}
+	if err := tmp.Chmod(os.FileMode(0o644)); err != nil {
+		return cleanup(err)
+	}
+	if err := tmp.Sync(); err != nil {
+		return cleanup(err)
+	}
+	if err := tmp.Close(); err != nil {
+		os.Remove(tmpName)
+		return err
+	}
+	if err := os.Rename(tmpName, filepath.Join(dir, name)); err != nil {
+		os.Remove(tmpName)
+		return err
+	}
 	return nil
 }
 
